@@ -11,11 +11,14 @@ META = {"text": "Same pipeline as C08 on MessageQueue put / put_async / get / ge
 EXTRA = [new_prog(nmq=1, actors=[[op("mput", 1), op("mputa", 1), op("wait", 1)], [op("mget", 1), op("sleep", 0, 0, 2), op("mget", 1)]]),
          # an actor ends with an un-waited get_async / put_async in the middle of the queue: its entry is cancelled, the order of
          # the others must be kept
-         new_prog(nmq=1, actors=[[op("mgeta", 1)], [op("sleep", 0, 0, 1), op("mgeta", 1), op("wait", 1)],
-                                 [op("sleep", 0, 0, 2), op("mgeta", 1), op("wait", 1)], [op("sleep", 0, 0, 3), op("mput", 1), op("mput", 1)]]),
-         new_prog(nmq=1, actors=[[op("sleep", 0, 0, 1), op("mputa", 1)], [op("mputa", 1), op("sleep", 0, 0, 9)],
-                                 [op("sleep", 0, 0, 2), op("mputa", 1), op("sleep", 0, 0, 9)], [op("sleep", 0, 0, 3), op("mputa", 1), op("sleep", 0, 0, 9)],
-                                 [op("sleep", 0, 0, 4), op("mget", 1), op("mget", 1), op("mget", 1)]])]
+         new_prog(nmq=1, actors=[[op("mgeta", 1), op("sleep", 0, 0, 3)], [op("sleep", 0, 0, 1), op("mgeta", 1), op("wait", 1)],
+                                 [op("sleep", 0, 0, 2), op("mgeta", 1), op("wait", 1)], [op("sleep", 0, 0, 4), op("mput", 1), op("mput", 1)]]),
+         new_prog(nmq=1, actors=[[op("sleep", 0, 0, 1), op("mgeta", 1), op("sleep", 0, 0, 3)], [op("mgeta", 1), op("wait", 1)],
+                                 [op("sleep", 0, 0, 2), op("mgeta", 1), op("wait", 1)], [op("sleep", 0, 0, 3), op("mgeta", 1), op("wait", 1)],
+                                 [op("sleep", 0, 0, 5), op("mput", 1), op("mput", 1), op("mput", 1)]]),
+         new_prog(nmq=1, actors=[[op("mputa", 1), op("sleep", 0, 0, 3)], [op("sleep", 0, 0, 1), op("mputa", 1), op("sleep", 0, 0, 9)],
+                                 [op("sleep", 0, 0, 2), op("mputa", 1), op("sleep", 0, 0, 9)],
+                                 [op("sleep", 0, 0, 4), op("mget", 1), op("mget", 1)]])]
 
 
 def run(ctx):
